@@ -93,9 +93,9 @@ fn main() {
                 "C14" => props2::c14(&mut c, &b),
                 "C15" => props2::c15(&mut c, &b),
                 "C16" => props3::c16(&mut c, &b),
-                "C17" => props4::c17(&mut c, &b),
-                "C18" => props4::c18(&mut c, &b),
-                "C19" => props4::c19(&mut c, &b),
+                "C17" => { props4::c17(&mut c, &b); props4::c17_model(&mut c, &b); }
+                "C18" => { props4::c18(&mut c, &b); props4::c18_model(&mut c, &b); }
+                "C19" => { props4::c19(&mut c, &b); props4::c19_model(&mut c, &b); }
                 _ => { eprintln!("unknown property {}", prop); std::process::exit(2); }
             }
             std::fs::create_dir_all(&outdir).unwrap();
